@@ -87,7 +87,9 @@ func (r *Recomposer) registerComposer(rt reflect.Type, fun RecomposeFunc) (*comp
 		return nil, fmt.Errorf("only structs can be recomposed. %s is not a struct type", rt)
 	}
 	c := r.composers[full]
-	if c == nil {
+	if c == nil || c.rtype != rt {
+		// Not registered, or the name belongs to another type (struct
+		// literals all have the name "").
 		c = &composer{
 			fun:   fun,
 			short: rt.Name(),
@@ -406,7 +408,7 @@ func (r *Recomposer) recomp(v any, rv reflect.Value) {
 	case reflect.Struct:
 		vm, ok := (v).(map[string]any)
 		if !ok {
-			if c := r.composers[rv.Type().Name()]; c != nil && c.any != nil {
+			if c := r.composers[rv.Type().Name()]; c != nil && c.rtype == rv.Type() && c.any != nil {
 				if val, err := c.any(v); err == nil {
 					if val == nil {
 						break
@@ -444,7 +446,9 @@ func (r *Recomposer) recomp(v any, rv reflect.Value) {
 			return
 		}
 		var im map[string]reflect.StructField
-		if c := r.composers[rv.Type().Name()]; c != nil {
+		// The registry is keyed by name; a composer made for another type
+		// of the same name must not be used (its field indexes are wrong).
+		if c := r.composers[rv.Type().Name()]; c != nil && c.rtype == rv.Type() {
 			if c.fun != nil {
 				if val, err := c.fun(vm); err == nil {
 					vv := reflect.ValueOf(val)
